@@ -1,6 +1,7 @@
 (* C04 - the limit estimate stays a finite in-bounds integer; samples never panic. *)
 From Coq Require Import ZArith Reals List Lia Lra.
 From Flocq Require Import Core BinarySingleNaN.
+From GCL Require Proofs.TablesOk.
 From GCL Require Import Base.F64 Base.F64Facts Model.Measure Model.Limits Proofs.VegasSafe Proofs.AimdProofs.
 Import ListNotations.
 
@@ -38,3 +39,10 @@ Proof.
   - unfold u. change (IZR 1000) with 1000%R. lra.
   - lra.
 Qed.
+
+(* Generated-fact obligation, re-checked on every run against Gen/Tables.v (dumped from /repo's limit/functions as built now):
+   the lookup tables and the queue-size / log10 functions agree with the model's closed forms on the table,
+   at its boundary and beyond it. *)
+Theorem C04_tables_agree : TablesOk.tables_ok = true /\ TablesOk.functions_ok = true /\ TablesOk.log10f_ok = true.
+Proof. exact (conj TablesOk.tables_agree (conj TablesOk.functions_agree TablesOk.log10f_agrees)). Qed.
+Print Assumptions C04_tables_agree.
